@@ -21,15 +21,15 @@ supported sheet (others are skipped, or read as `survey` when alone) -/
 def nameOK (n : Str) : Bool :=
   cellOK n && n != [] && isAscii n && supported.contains (lowerAscii n)
 
-/-- data row: cells stripped and one-line; not blank (blank rows are dropped: F16); not longer
-than the header (a non-empty cell beyond the header is an IndexError: F27) -/
-def rowOK (hlen : Nat) (r : List Str) : Bool :=
-  r.all cellOK && r.any (· != []) && decide (r.length ≤ hlen)
+/-- data row: cells stripped and one-line; not blank (blank rows are dropped: F16).  Cells beyond
+the header row are ignored by `md_to_dict` exactly as by the dict container. -/
+def rowOK (r : List Str) : Bool :=
+  r.all cellOK && r.any (· != [])
 
 /-- header non-empty, all header cells non-empty (an empty one becomes the key `None`) -/
 def sheetOK (s : Sheet) : Bool :=
   nameOK s.name && s.header != [] && s.header.all (fun c => cellOK c && c != []) &&
-    s.rows.all (rowOK s.header.length)
+    s.rows.all rowOK
 
 /-- the workbooks `md_to_dict ∘ renderMd` reads back exactly; names distinct after `lower()`.
 (Non-emptiness of the workbook follows from `isMarkdownTable (renderMd wb)`.) -/
